@@ -266,6 +266,8 @@ var flowTargets = []flowTarget{
 	{"stores/sqlite/store.go", "SQLiteStore", "Append", "sqlAppendFlow", ""},
 	{"stores/sqlite/store.go", "SQLiteStore", "streamBatch", "sqlStreamBatchFlow", ""},
 	{"stores/durablestream/store.go", "Store", "Read", "dsReadFlow", ""},
+	{"stores/sqlite/schema.go", "", "migrateV1", "migrateV1Flow", ""},
+	{"stores/sqlite/schema.go", "", "migrate", "migrateFlow", ""},
 	{"otel/observability.go", "Observability", "OnPublishStart", "otelPublishStartFlow", ""},
 	{"otel/observability.go", "Observability", "OnPublishComplete", "otelPublishCompleteFlow", ""},
 	{"otel/observability.go", "Observability", "OnHandlerStart", "otelHandlerStartFlow", ""},
@@ -371,6 +373,9 @@ var flowVocab = [][2]string{
 	{"publishCounterAdd", "call:o.publishCounter.Add"}, {"handlerCounterAdd", "call:o.handlerCounter.Add"}, {"persistCounterAdd", "call:o.persistCounter.Add"},
 	{"handlerErrorsAdd", "call:o.handlerErrors.Add"}, {"persistErrorsAdd", "call:o.persistErrors.Add"}, {"ifErr", "if:err != nil{"},
 	{"setStatus", "call:span.SetStatus"}, {"recordError", "call:span.RecordError"},
+	// sqlite migration
+	{"beginTx", "call:db.BeginTx"}, {"txRollback", "call:tx.Rollback"}, {"txExec", "call:tx.ExecContext"}, {"txCommit", "call:tx.Commit"},
+	{"rangeStatements", "range:statements{"}, {"ifOldVersion", "if:version < 1{"}, {"callMigrateV1", "call:migrateV1"},
 	// sqlite
 	{"sqlExec", "call:s.appendStmt.ExecContext"}, {"lastInsertId", "call:result.LastInsertId"}, {"toUTC", "call:event.Timestamp.UTC"},
 	{"rowsNext", "call:rows.Next"}, {"rowsErr", "call:rows.Err"}, {"yieldC", "call:yield"}, {"rowsScan", "call:rows.Scan"},
